@@ -133,7 +133,7 @@ def run_val(pid, tier, seed, replay, ctx, gen_args, rule, nontrivial=None):
 def c12(pid, tier, seed, replay, ctx):
     return run_val(
         pid, tier, seed, replay, ctx,
-        {"quick": ["--cases", "6000"], "medium": ["--cases", "40000"], "thorough": ["--cases", "150000"]},
+        {"quick": ["--cases", "6000"], "medium": ["--cases", "24000"], "thorough": ["--cases", "150000"]},
         "enumeration of every adversarial f64/f32 (NaN variants, ±inf, -0, subnormals, one ulp beyond each bound) in both "
         "machine fractions, the framework fractions, each transition probability position, per-vector sums, target corner "
         "cases, empty vectors (crafted bincode), every parameter of the 11 distribution families in each position a Dist can "
@@ -145,7 +145,7 @@ def c12(pid, tier, seed, replay, ctx):
 def c13(pid, tier, seed, replay, ctx):
     return run_val(
         pid, tier, seed, replay, ctx,
-        {"quick": ["--cases", "25", "--watchdog-ms", "4000"], "medium": ["--cases", "120", "--watchdog-ms", "4000"], "thorough": ["--cases", "600", "--watchdog-ms", "8000"]},
+        {"quick": ["--cases", "25", "--watchdog-ms", "4000"], "medium": ["--cases", "100", "--watchdog-ms", "4000"], "thorough": ["--cases", "600", "--watchdog-ms", "8000"]},
         "every parameter corner of the 11 families admitted by Dist::validate x {start, max} from NaN/±inf/0/neg/pos x RNG prefix "
         "(none, zeros, ones, alternating, top/low bits; lengths 1-64) followed by a fair stream, each Dist::sample call on its own "
         "watchdog-supervised thread; distinct = (family, start class, max class, prefix, raw class, returned class, uniform path)",
@@ -172,7 +172,7 @@ def c06(pid, tier, seed, replay, ctx):
 def c06_val(pid, tier, seed, replay, ctx):
     return run_val(
         pid, tier, seed, replay, ctx,
-        {"quick": ["--cases", "1500", "--exhaustive", "30"], "medium": ["--cases", "8000", "--exhaustive", "60"], "thorough": ["--cases", "20000", "--exhaustive", "400"]},
+        {"quick": ["--cases", "1500", "--exhaustive", "30"], "medium": ["--cases", "6000", "--exhaustive", "60"], "thorough": ["--cases", "20000", "--exhaustive", "400"]},
         "validated probability vectors (fixed corner vectors + random from VERIF_SEED: 1-6 targets incl. END/SIGNAL, values at f32 "
         "resolution limits, sums from tiny to exactly 1); per vector the boundary words (ceil(c_i 2^23)-2..+1) << 9 with low-bit "
         "garbage, and for the exhaustive cases all 2^23 words; distinct = (number of targets, p=1, END, SIGNAL, sum class, mode)",
